@@ -36,20 +36,27 @@ Proof.
     injection H as <- <-. exists st1, (f1 ++ g1), g2. split; [reflexivity|exact B].
 Qed.
 
-(* every reading of an accepted run: the permits the overlay knows to be held at that instant and
-   the free ones fit into K -- and the overlay's own bound holds there too *)
+(* every reading of an accepted run taken while the call runs: the permits the overlay knows to be held
+   at that instant and the free ones fit into K -- and the overlay's own bound holds there too;
+   a reading taken after the call returned shows all K permits free *)
 Lemma readings_bounded cs g c d0 tr1 f tr2 st full :
   paccepts_opt cs g c d0 (tr1 ++ PFree f :: tr2) = Some (st, full) ->
   exists st1 f1, paccepts_opt cs g c d0 tr1 = Some (st1, f1) /\
-                 holders g st1 + f <= c_K c /\ holders g st1 <= c_K c /\
-                 inflight_src g st1 + f <= c_K c /\ inflight_dst g st1 + f <= c_K c.
+    (returned st1 = None ->
+       holders g st1 + f <= c_K c /\ holders g st1 <= c_K c /\
+       inflight_src g st1 + f <= c_K c /\ inflight_dst g st1 + f <= c_K c) /\
+    (returned st1 <> None -> f = c_K c).
 Proof.
   unfold paccepts_opt. intro H. apply prun_opt_app in H as [st1 [f1 [f2 [H1 H2]]]].
   exists st1, f1. split; [exact H1|].
   simpl in H2. unfold reading_ok in H2.
-  destruct (Nat.leb (holders g st1 + f) (c_K c)) eqn:E; [|discriminate].
-  apply Nat.leb_le in E.
-  destruct (inflight_le_holders g st1) as [_ [A B]]. lia.
+  destruct (returned st1) as [b|] eqn:R.
+  - split; [discriminate|]. intros _.
+    destruct (Nat.eqb f (c_K c)) eqn:E; [|discriminate]. now apply Nat.eqb_eq in E.
+  - split; [|congruence]. intros _.
+    destruct (Nat.leb (holders g st1 + f) (c_K c)) eqn:E; [|discriminate].
+    apply Nat.leb_le in E.
+    destruct (inflight_le_holders g st1) as [_ [A B]]. lia.
 Qed.
 
 (* ------------------------------------------------------------------ the transport encoding *)
@@ -141,7 +148,12 @@ Definition ptr_ok : list pev :=
   [PEv (ExB 2); PFree 1; PEv (ExE 2 false); PEv (SFB 2); PEv (SFE 2); PEv (SFC 2); PFree 2;
    PEv (ExB 0); PFree 1; PEv (ExB 1); PFree 0; PEv (ExE 0 false); PEv (ExE 1 false); PFree 0;
    PEv (Cb CPre 0); PEv (SFB 0); PEv (SFE 0); PEv (PuB 0 false); PEv (PuE 0 false POk); PEv (SFC 0);
-   PEv (Cb CPost 0); PFree 1].
+   PEv (Cb CPost 0); PFree 1;
+   PEv (Cb CPre 1); PEv (SFB 1); PEv (SFE 1); PEv (PuB 1 false); PEv (PuE 1 false POk); PEv (SFC 1);
+   PEv (Cb CPost 1); PEv (Cb CPre 2); PEv (PuB 2 false); PEv (PuE 2 false POk); PEv (Cb CPost 2);
+   PEv (Ret true); PFree 2].
+(* the same run, but one permit is missing after the return *)
+Definition ptr_leak : list pev := removelast ptr_ok ++ [PFree 1].
 Definition ptr_bad : list pev :=
   [PEv (ExB 2); PFree 1; PEv (ExE 2 false); PEv (SFB 2); PEv (SFE 2); PEv (SFC 2);
    PEv (ExB 0); PEv (ExB 1); PFree 1].
@@ -150,9 +162,11 @@ Definition c_perm : cfg := mkCfg 2 MGraph 2 false true [] [].
 Lemma readings_example :
   (exists r, paccepts_opt all_set g_leaf c_perm [] ptr_ok = Some r) /\
   paccepts_opt all_set g_leaf c_perm [] ptr_bad = None /\
-  (exists r, accepts_opt_h all_set g_leaf c_perm [] (events_of ptr_bad) = Some r).
+  (exists r, accepts_opt_h all_set g_leaf c_perm [] (events_of ptr_bad) = Some r) /\
+  paccepts_opt all_set g_leaf c_perm [] ptr_leak = None.
 Proof.
   split; [eexists; vm_compute; reflexivity|].
   split; [vm_compute; reflexivity|].
-  eexists; vm_compute; reflexivity.
+  split; [eexists; vm_compute; reflexivity|].
+  vm_compute; reflexivity.
 Qed.
